@@ -105,7 +105,8 @@ def _corr_shard(name, shard, nshards, tier, seed):
         ops, metas, chg = [], [], []
         for _ in range(n):
             chains, L, oid, charged, tag = oglib.gen_chain_list(rng)
-            ops.append({'op': 'og.from_opchains', 'chains': chains, 'length': L, 'oid_identity': oid})
+            ops.append({'op': 'og.from_opchains', 'chains': chains, 'length': L, 'oid_identity': oid,
+                        'share': bool(rng.random() < 0.3), 'twice': bool(rng.random() < 0.3)})
             metas.append({'cls': cls_chains, 'branches': ['kind:' + tag, 'charged' if charged else 'uncharged', f'L={L}']})
             chg.append(charged)
         impls, _ = oglib.run_ops(c, ops, metas)
@@ -215,7 +216,8 @@ def oracle_chains(chains, L, oid, qd, enc_opmap):
     opmap = oglib.opmap_of(enc_opmap)
     d = len(qd)
     try:
-        cs = [OpChain(o, q, dec(c), i) for o, q, c, i in chains]
+        # equal entries are the same object (a term object listed several times), every second case
+        cs = oglib.build_chains(chains, share=(zlib.crc32(json.dumps(chains).encode()) % 2 == 0))
         g = with_alarm(10.0, lambda: OpGraph.from_opchains(cs, L, oid))
     except CaseTimeout:
         return 'from_opchains does not terminate within 10 s'
